@@ -1,7 +1,17 @@
-import Sif.Spec.C13
+import Sif.Proofs.C13Run
+import Sif.Proofs.C13Examples
 /-
   C13 — margin positions agree with pool totals and are liquidated only when unhealthy.
   Property theorems only (helper lemmas live in Sif/Proofs/C13*.lean).
+
+  The model (Sif/Model/Margin*.lean) follows /repo's working tree, i.e. the *repaired* code
+  (`Fixes.repaired`: fixes/F14.diff, fixes/F14b.diff, fixes/F15.diff applied).  The theorems are
+  about that code; `pinned_*` are kernel-checked witnesses that each repair is needed.
+
+  Quantifiers: every state satisfying the two decidable invariants `WF` (store well-formedness) and
+  `MarginOK`, every message, every signer, every amount, every leverage, every parameter setting,
+  every interest rate handed to the BeginBlocker, every history — no bounds.  The only numeric
+  hypothesis is that the 64-bit id counter does not wrap.
 -/
 namespace Sif.Props.C13
 open Sif Sif.Margin Sif.Spec.C13
@@ -10,5 +20,199 @@ open Sif Sif.Margin Sif.Spec.C13
 theorem refused_changes_nothing (fx : Fixes) (s : State) (m : Msg) (e : Err)
     (h : handle fx s m = .error e) : deliver fx s m = s := by
   unfold deliver; rw [h]
+
+/-- **Open preserves MarginOK** (and the auxiliary invariant), on success and on every error exit —
+    including the exits after `Borrow` and `TakeInCustody` have written. -/
+theorem open_preserves (s : State) (m : MsgOpen) (hwf : WF s = true) (hok : MarginOK s = true)
+    (hcnt : s.mtpCount + 1 < u64) :
+    WF (deliver Fixes.repaired s (.open m)) = true ∧ MarginOK (deliver Fixes.repaired s (.open m)) = true := by
+  have := step_inv (s := s) (.msg (.open m)) ((MarginOK_iff s).mp hok) ((WF_iff s).mp hwf) (by simp [opens]; omega)
+  exact ⟨(WF_iff _).mpr this.2.1, (MarginOK_iff _).mpr this.1⟩
+
+/-- **Close preserves MarginOK**, whether or not it pays pro-rated interest first. -/
+theorem close_preserves (s : State) (a : Addr) (id : Nat) (hwf : WF s = true) (hok : MarginOK s = true) :
+    WF (deliver Fixes.repaired s (.close a id)) = true ∧ MarginOK (deliver Fixes.repaired s (.close a id)) = true := by
+  have := step_inv (s := s) (.msg (.close a id)) ((MarginOK_iff s).mp hok) ((WF_iff s).mp hwf)
+    (by have := ((WF_iff s).mp hwf).cnt; simp [opens]; omega)
+  exact ⟨(WF_iff _).mpr this.2.1, (MarginOK_iff _).mpr this.1⟩
+
+/-- **AdminClose preserves MarginOK** -/
+theorem adminClose_preserves (s : State) (sg a : Addr) (id : Nat) (t : Bool) (hwf : WF s = true) (hok : MarginOK s = true) :
+    WF (deliver Fixes.repaired s (.adminClose sg a id t)) = true ∧
+      MarginOK (deliver Fixes.repaired s (.adminClose sg a id t)) = true := by
+  have := step_inv (s := s) (.msg (.adminClose sg a id t)) ((MarginOK_iff s).mp hok) ((WF_iff s).mp hwf)
+    (by have := ((WF_iff s).mp hwf).cnt; simp [opens]; omega)
+  exact ⟨(WF_iff _).mpr this.2.1, (MarginOK_iff _).mpr this.1⟩
+
+/-- **ForceClose (deprecated message) preserves MarginOK** -/
+theorem forceClose_preserves (s : State) (sg a : Addr) (id : Nat) (hwf : WF s = true) (hok : MarginOK s = true) :
+    WF (deliver Fixes.repaired s (.forceClose sg a id)) = true ∧
+      MarginOK (deliver Fixes.repaired s (.forceClose sg a id)) = true := by
+  have := step_inv (s := s) (.msg (.forceClose sg a id)) ((MarginOK_iff s).mp hok) ((WF_iff s).mp hwf)
+    (by have := ((WF_iff s).mp hwf).cnt; simp [opens]; omega)
+  exact ⟨(WF_iff _).mpr this.2.1, (MarginOK_iff _).mpr this.1⟩
+
+/-- **The BeginBlocker preserves MarginOK**: BeginBlock is not atomic and the per-position processing
+    swallows errors and panics, yet every exit of it — after every partial sequence of `SetPool` /
+    `SetMTP` / bank transfers — leaves the invariant intact, for every interest rate. -/
+theorem beginBlocker_preserves (s s' : State) (rates : Asset → Option Dec) (hwf : WF s = true) (hok : MarginOK s = true)
+    (h : beginBlocker Fixes.repaired s rates = .ok s') : WF s' = true ∧ MarginOK s' = true := by
+  have := beginBlocker_inv (fx := Fixes.repaired) rfl rfl ((MarginOK_iff s).mp hok) ((WF_iff s).mp hwf) h
+  exact ⟨(WF_iff _).mpr this.2.1, (MarginOK_iff _).mpr this.1⟩
+
+/-- **Every reachable state satisfies MarginOK**: any history of messages, BeginBlockers (with any
+    rates) and environment changes (parameters, roles, every bank balance, the height, pool balances
+    moved by swaps and liquidity changes). -/
+theorem reachable_marginOK (s : State) (ops : List Op) (hwf : WF s = true) (hok : MarginOK s = true)
+    (hcnt : s.mtpCount + opens ops < u64) :
+    WF (run Fixes.repaired s ops) = true ∧ MarginOK (run Fixes.repaired s ops) = true := by
+  have := run_inv ops s ((MarginOK_iff s).mp hok) ((WF_iff s).mp hwf) hcnt
+  exact ⟨(WF_iff _).mpr this.2, (MarginOK_iff _).mpr this.1⟩
+
+/-- **A closed position disappears completely** (Close). -/
+theorem closed_disappears (s s' : State) (a : Addr) (id : Nat) (hwf : WF s = true) (hok : MarginOK s = true)
+    (h : handle Fixes.repaired s (.close a id) = .ok s') : getMtpL s'.mtps (a, id) = none := by
+  simp only [handle] at h
+  cases hc : closeMsg Fixes.repaired s a id with
+  | ok r =>
+    rw [hc] at h; simp [Except.map] at h; rw [← h]
+    exact (closeMsg_good (fx := Fixes.repaired) rfl ((MarginOK_iff s).mp hok) ((WF_iff s).mp hwf) hc).2.2.1
+  | error e => rw [hc] at h; simp [Except.map] at h
+
+/-- …and so does a position closed by an administrator. -/
+theorem adminClosed_disappears (s s' : State) (sg a : Addr) (id : Nat) (t : Bool) (hwf : WF s = true) (hok : MarginOK s = true)
+    (h : handle Fixes.repaired s (.adminClose sg a id t) = .ok s') : getMtpL s'.mtps (a, id) = none := by
+  simp only [handle] at h
+  cases hc : adminCloseMsg Fixes.repaired s sg a id t with
+  | ok r =>
+    rw [hc] at h; simp [Except.map] at h; rw [← h]
+    exact (adminCloseMsg_good (fx := Fixes.repaired) rfl ((MarginOK_iff s).mp hok) ((WF_iff s).mp hwf) hc).2.2.1
+  | error e => rw [hc] at h; simp [Except.map] at h
+
+/-- **Only the owner or an administrator removes a position by message**: if a stored position is
+    gone after a message, the message was a Close signed by the position's own address, or an
+    AdminClose / ForceClose whose signer holds the margin administrator role. -/
+theorem only_owner_or_admin_closes (s : State) (msg : Msg) (k : Key) (m : Mtp) (hwf : WF s = true) (hok : MarginOK s = true)
+    (hcnt : s.mtpCount + 1 < u64) (hm : getMtpL s.mtps k = some m)
+    (hgone : getMtpL (deliver Fixes.repaired s msg).mtps k = none) :
+    msg = .close k.1 k.2 ∨
+    (∃ sg t, msg = .adminClose sg k.1 k.2 t ∧ s.admins.contains sg = true) ∨
+    (∃ sg, msg = .forceClose sg k.1 k.2 ∧ s.admins.contains sg = true) := by
+  have hOK := (MarginOK_iff s).mp hok
+  have hWF := (WF_iff s).mp hwf
+  have unchanged : getMtpL s.mtps k ≠ none := by rw [hm]; simp
+  cases msg with
+  | «open» mo =>
+    exfalso
+    simp only [deliver, handle] at hgone
+    cases h : openMsg Fixes.repaired s mo with
+    | ok w =>
+      rw [h] at hgone; simp only [Except.map] at hgone
+      obtain ⟨_, _, hself, _, _, _, _, hfr⟩ := openMsg_good (fx := Fixes.repaired) rfl hOK hWF hcnt h
+      by_cases hk : k = w.mtp.key
+      · rw [hk, hself] at hgone; cases hgone
+      · rw [hfr k hk] at hgone; exact unchanged hgone
+    | error e => rw [h] at hgone; simp only [Except.map] at hgone; exact unchanged hgone
+  | close a id =>
+    simp only [deliver, handle] at hgone
+    cases h : closeMsg Fixes.repaired s a id with
+    | ok r =>
+      rw [h] at hgone; simp only [Except.map] at hgone
+      obtain ⟨_, _, _, _, hfr⟩ := closeMsg_good (fx := Fixes.repaired) rfl hOK hWF h
+      by_cases hk : k = (a, id)
+      · left; rw [hk]
+      · exfalso; rw [hfr k hk] at hgone; exact unchanged hgone
+    | error e => exfalso; rw [h] at hgone; simp only [Except.map] at hgone; exact unchanged hgone
+  | adminClose sg a id t =>
+    simp only [deliver, handle] at hgone
+    cases h : adminCloseMsg Fixes.repaired s sg a id t with
+    | ok r =>
+      rw [h] at hgone; simp only [Except.map] at hgone
+      obtain ⟨_, _, _, hadm, _, hfr⟩ := adminCloseMsg_good (fx := Fixes.repaired) rfl hOK hWF h
+      by_cases hk : k = (a, id)
+      · right; left; exact ⟨sg, t, by rw [hk], hadm⟩
+      · exfalso; rw [hfr k hk] at hgone; exact unchanged hgone
+    | error e => exfalso; rw [h] at hgone; simp only [Except.map] at hgone; exact unchanged hgone
+  | forceClose sg a id =>
+    simp only [deliver, handle] at hgone
+    cases h : adminCloseMsg Fixes.repaired s sg a id false with
+    | ok r =>
+      rw [h] at hgone; simp only [Except.map] at hgone
+      obtain ⟨_, _, _, hadm, _, hfr⟩ := adminCloseMsg_good (fx := Fixes.repaired) rfl hOK hWF h
+      by_cases hk : k = (a, id)
+      · right; right; exact ⟨sg, by rw [hk], hadm⟩
+      · exfalso; rw [hfr k hk] at hgone; exact unchanged hgone
+    | error e => exfalso; rw [h] at hgone; simp only [Except.map] at hgone; exact unchanged hgone
+
+/-- **A position can be opened only if its health then exceeds the safety factor**: after a
+    successful Open the new position is stored under (signer, next id), its pool is stored, and the
+    health the chain computes for the stored position in the stored pool is above the safety factor. -/
+theorem open_requires_health (s s' : State) (m : MsgOpen) (hwf : WF s = true) (hok : MarginOK s = true)
+    (hcnt : s.mtpCount + 1 < u64) (h : handle Fixes.repaired s (.open m) = .ok s') :
+    openHealthOK s' m.signer (s.mtpCount + 1) = true := by
+  simp only [handle] at h
+  cases hc : openMsg Fixes.repaired s m with
+  | ok w =>
+    rw [hc] at h; simp [Except.map] at h
+    obtain ⟨_, _, hself, hpool, ⟨lr, hlr, hgt⟩, hkey, _, _⟩ :=
+      openMsg_good (fx := Fixes.repaired) rfl ((MarginOK_iff s).mp hok) ((WF_iff s).mp hwf) hcnt hc
+    rw [← h]
+    unfold openHealthOK
+    rw [← hkey, hself]
+    simp only [hpool]
+    unfold healthAbove healthOf
+    rw [hlr]
+    simp only [decide_eq_true_eq]
+    exact hgt
+  | error e => rw [hc] at h; simp [Except.map] at h
+
+/-! ### non-vacuity: a concrete pool, trader and history meet the hypotheses and take the success paths -/
+
+example : WF Ex.s0 = true ∧ MarginOK Ex.s0 = true ∧ Ex.s0.mtpCount + 1 < u64 := by decide +kernel
+example : Ex.isOk (handle Fixes.repaired Ex.s0 (.open Ex.openMsg0)) = true := by decide +kernel
+example : WF Ex.s1 = true ∧ MarginOK Ex.s1 = true ∧ Ex.s1.mtps.length = 1 := by decide +kernel
+/- Close inside an epoch: pays pro-rated interest (a fund cut included), then repays -/
+example : Ex.isOk (handle Fixes.repaired Ex.s1 (.close "trader" 1)) = true := by decide +kernel
+example : Ex.isOk (handle Fixes.repaired Ex.s1 (.adminClose "adm" "trader" 1 true)) = true := by decide +kernel
+example : Ex.isOk (handle Fixes.repaired Ex.s1 (.adminClose "trader" "trader" 1 true)) = false := by decide +kernel
+/- an epoch-boundary BeginBlocker that really pays interest out of the custody -/
+example : (match beginBlocker Fixes.repaired Ex.s2 Ex.rates with
+    | .ok s' => s'.mtps.map (fun m => m.custody) | .error _ => []) = [21529] := by decide +kernel
+example : openHealthOK Ex.s1 "trader" 1 = true := by decide +kernel
+
+/-! ### the pinned code violates the property (each repair is needed) -/
+
+/-- F14, hook path: with the interest fund address set to a module account the pinned BeginBlocker
+    persists the position with reduced custody while the pool keeps the old custody. -/
+theorem pinned_F14_hook_violates :
+    WF Ex.s2blocked = true ∧ MarginOK Ex.s2blocked = true ∧
+    (match beginBlocker Fixes.pinned Ex.s2blocked Ex.rates with | .ok s' => MarginOK s' | .error _ => true) = false ∧
+    (match beginBlocker Fixes.repaired Ex.s2blocked Ex.rates with | .ok s' => MarginOK s' | .error _ => false) = true := by
+  decide +kernel
+
+/-- F14, message path: the same failed fund transfer inside a Close in mid-epoch leaves custody behind in the pool. -/
+theorem pinned_F14_close_violates :
+    MarginOK (deliver Fixes.pinned { Ex.s1 with params := { Ex.s1.params with iipAddr := "margin" } } (.close "trader" 1)) = false := by
+  decide +kernel
+
+/-- F14b: a liquidation that fails after `TakeOutCustody` (here: refused fund transfer in `Repay`)
+    leaves the custody taken out of the pool while the position stays stored — unless the hook
+    runs it on a branch. -/
+theorem pinned_F14b_violates :
+    WF Ex.s2fc = true ∧ MarginOK Ex.s2fc = true ∧
+    (match beginBlocker ⟨true, false, true⟩ Ex.s2fc Ex.rates with | .ok s' => MarginOK s' | .error _ => true) = false ∧
+    (match beginBlocker Fixes.repaired Ex.s2fc Ex.rates with | .ok s' => MarginOK s' | .error _ => false) = true := by
+  decide +kernel
+
+/-- F15: the pinned Open accepts a position between two non-native assets; the state is then no
+    longer well-formed, and the BeginBlocker (even with F14/F14b repaired) processes that position
+    against both pools and breaks MarginOK. -/
+theorem pinned_F15_violates :
+    WF (deliver Fixes.pinned Ex.s0two (.open Ex.openCross)) = false ∧
+    (deliver Fixes.repaired Ex.s0two (.open Ex.openCross)).mtps.length = 0 ∧
+    (let s := deliver Fixes.pinned (deliver Fixes.pinned Ex.s0two (.open Ex.openCross)) (.open { Ex.openMsg0 with borrow := "ceth" })
+     MarginOK s = true ∧
+     (match beginBlocker ⟨true, true, false⟩ { s with height := 4 } Ex.rates with | .ok s' => MarginOK s' | .error _ => true) = false) := by
+  decide +kernel
 
 end Sif.Props.C13
